@@ -313,7 +313,8 @@ class FiltersSet:
             if action.extension is not None:
                 self.require(action.extension)
             for arg in actdef[1:]:
-                self.check_if_arg_is_extension(arg)
+                if isinstance(arg, str):
+                    self.check_if_arg_is_extension(arg)
                 if isinstance(arg, int):
                     atype = "number"
                 elif isinstance(arg, list):
